@@ -494,6 +494,12 @@ def e_b2_l(w, q, out, ctx):
     res = b.lthorder(of)
     if out:
         _npy_check("boo_2d.lthorder", of, res)
+    # the constructor stored the result of its own lthorder() call: the same evaluation, made again on the same object
+    from .c18_world import same
+    m = same(np.asarray(b.ParticlePhi), np.asarray(res), "lthorder()")
+    if m:
+        raise Violation(f"boo_2d.lthorder() called again on the object does not return what the call made by the constructor "
+                        f"returned (stored as ParticlePhi): {m}")
     return (res, b.ParticlePhi)
 
 
@@ -687,10 +693,13 @@ def e_sa(w, q, out, ctx):
     return res
 
 
-@entry("gaussian_blurring", "cg", [{"k": "real"}, {"k": "vector"}, {"k": "tensor"}, {"k": "real", "dflt": True}], out=True)
+# "sig": a narrow Gaussian -- exp(-d^2 / 2 sigma^2) underflows to 0 for distant grid points (benign unless an earlier call
+# left numpy's error handling at 'raise')
+@entry("gaussian_blurring", "cg", [{"k": "real"}, {"k": "vector"}, {"k": "tensor"}, {"k": "real", "dflt": True},
+                                   {"k": "vector", "sig": 0.02}], out=True)
 def e_gb(w, q, out, ctx):
     of = "gb" if out else ""
-    pos, prop = gaussian_blurring(w.snaps["x"], w.A[_FIELD[q["k"]]], w.A["ngrids"], sigma=0.5,
+    pos, prop = gaussian_blurring(w.snaps["x"], w.A[_FIELD[q["k"]]], w.A["ngrids"], sigma=q.get("sig", 0.5),
                                   gaussian_cut=0.45 * w.Lmin, outputfile=of, **_ppp_kw(w, q, 3))
     if out:
         _npy_check("gaussian_blurring(positions)", of + "_positions.npy", pos)
